@@ -100,7 +100,7 @@ CHECKS = {
    ref="DESIGN.md §5 C14",
    note="Generated/Ranking.lean (harness/translate_ranking.py): pipe_ssporFit – the statements after the optimizer call are tailShuffle σ m for every ranking, mode count, sensor count and permutation oracle (seed must reach np.random.default_rng unmodified); selection_<method>_k – every slice of ranked_sensors_ in predict / get_selected_sensors is selectLead n_sensors. The optimizer ranking and basis entries are parameters of the machine (taken from the real run)."),
  "C15": dict(
-   cat="proof", technique="Lean 4 theorems about the SSPOR state machine (fit reads settings only) + history differential over datasets of different shapes + from-scratch reference + translator regenerating the statement trees of SSPOR.update_n_basis_modes, SSPOR._validate_n_sensors and of SSPOR.fit up to the optimizer call from the AST (tree = spec by rfl; the spec trees evaluate to the machine's updateModes / validateN for every state and argument)",
+   cat="proof", technique="Lean 4 theorems about the SSPOR state machine (fit reads settings only) + history differential over datasets of different shapes + from-scratch reference + translator regenerating the statement trees of SSPOR.update_n_basis_modes, SSPOR._validate_n_sensors, SSPOR.set_number_of_sensors and of SSPOR.fit up to the optimizer call from the AST (tree = spec by rfl; the spec trees evaluate to the machine's updateModes / validateN / setN for every state and argument)",
    text="fit_is_reset_partial / fit_after_history_is_reset (a successful fit's outcome depends only on the settings), fit_preserves_settings, update_modes_prefix, outside_basis_fit_keeps_model / update_after_outside_basis_fit / round_trip_is_identity (basis fitted behind the model's back, pickled copies); "
         "the Identity() default-mode freeze is proved as a witness on the model (identity_default_freezes) and listed as a known finding.",
    ref="DESIGN.md §5 C15",
